@@ -5,7 +5,7 @@ from concurrent.futures import ThreadPoolExecutor
 VERIF = os.path.dirname(os.path.dirname(os.path.abspath(__file__)))
 REPO = os.environ.get('VERIF_REPO', '/repo')
 BUILD = os.path.join(VERIF, '.build') if REPO == '/repo' else os.path.join(VERIF, '.build', 'alt-' + hashlib.sha256(REPO.encode()).hexdigest()[:10])
-REPLAYS = os.path.join(VERIF, 'replays')
+REPLAYS = os.path.join(VERIF, 'replays') if REPO == '/repo' else os.path.join(VERIF, 'replays', 'alt-' + hashlib.sha256(REPO.encode()).hexdigest()[:10])   # runs against a scratch tree (VERIF_REPO) keep their own replay/fingerprint area
 NCPU = os.cpu_count() or 16
 GUARD = 'LIBNSTD_VERIF'
 
@@ -462,9 +462,10 @@ def load_known(prop):
 
 
 def write_evidence(prop, tier, seed, level, coverage, assumptions, wall, violations):
-    os.makedirs(os.path.join(VERIF, 'evidence'), exist_ok=True)
+    evdir = os.path.join(VERIF, 'evidence') if REPO == '/repo' else os.path.join(REPLAYS, 'evidence')    # evidence/ only ever describes runs against /repo itself
+    os.makedirs(evdir, exist_ok=True)
     ev = dict(property_id=prop, tier=tier, seed=seed, level=level, coverage=coverage, assumptions=assumptions, wall_s=round(wall, 2), violations=violations)
-    p = os.path.join(VERIF, 'evidence', prop + '.json')
+    p = os.path.join(evdir, prop + '.json')
     tmp = p + '.tmp%d' % os.getpid()
     with open(tmp, 'w') as f:
         json.dump(ev, f, indent=1, sort_keys=True)
